@@ -382,7 +382,10 @@ def mangle_file_for_iso9660(orig, iso_level):
     valid_ext = ''
     splitter = orig.split('.')
     if iso_level == 4:
-        # A level 4 ISO allows 'anything', so just return the original.
+        # A level 4 ISO allows 'anything', so just return the original - but
+        # for the semicolon, which in a file identifier separates the version.
+        orig = orig.replace(';', '_')
+        splitter = orig.split('.')
         if len(splitter) == 1:
             return orig, valid_ext
 
